@@ -351,15 +351,47 @@ def cache_witness(run):
         run.known("D-C10e")
 
 
+def extobj_bodies(run):
+    """extension objects whose body is a byte string: {"TypeId":…, "Body": <base64>, "Encoding": 1}
+    (the model covers XML bodies only; this is the oracle on the real encoder)"""
+    import base64
+    import opcua_tools.ua_data_types as U
+    rng = run.rng
+    for j in range(12):
+        raw = bytes(rng.getrandbits(8) for _ in range(rng.choice([1, 2, 3, 16, 33])))   # (an empty byte string is this library's null byte string)
+        ns, it, ident = rng.choice([0, 2, 7]), rng.choice("isg"), None
+        ident = str(rng.randint(1, 9999)) if it == "i" else "T%d é" % j
+        case = {"extension_object": {"type": [ns, it, ident], "byte_string_body": base64.b64encode(raw).decode()}, "in_variant": j % 3 == 2}
+        run.case(case, tag="json:ExtensionObject:bytes")
+        try:
+            obj = U.UAExtensionObject(type_nodeid=U.UANodeId(ns, U.NodeIdType(it), ident), body=U.UAByteString(value=raw))
+            text = (U.UAVariant(value=obj) if j % 3 == 2 else obj).json_encode()
+            jv = strict_loads(text)
+            if j % 3 == 2:
+                assert num(jv["Type"]) == 22 and set(jv) == {"Type", "Body"}
+                jv = jv["Body"]
+            shape({"t": "NodeId", "v": [ns, it, ident]}, jv["TypeId"])
+            assert set(jv) == {"TypeId", "Body", "Encoding"} and num(jv["Encoding"]) == 1 and isinstance(jv["Body"], str)
+            assert base64.b64decode(jv["Body"]) == raw
+        except Exception as e:  # noqa: BLE001
+            if run.violation(case, {"what": "an extension object with a byte-string body is not encoded as {TypeId, Body: base64, Encoding: 1}",
+                                    "error": type(e).__name__ + ": " + str(e)[:200], "impl": str(locals().get("text"))[:300], "call": "UAExtensionObject.json_encode()"}):
+                return
+
+
 def explore(run):
     rng = run.rng
     thorough = run.tier == "thorough"
     cache_witness(run)
+    extobj_bodies(run)
+    if run.full():
+        return
     corpus = [{"t": "String", "v": 'a"b\\c\n\x01é😀'}, {"t": "Int64", "v": 42}, {"t": "UInt64", "v": 2**53}, {"t": "Double", "v": "inf"},
               {"t": "Double", "v": "nan"}, {"t": "Float", "v": "-inf"}, {"t": "Double", "v": "1e+22"}, {"t": "Double", "v": "5e-324"},
               {"t": "NodeId", "v": [0, "i", "5"]}, {"t": "NodeId", "v": [3, "s", "xé"]}, {"t": "LocalizedText", "text": None, "locale": None},
               {"t": "Variant", "v": {"t": "Boolean", "v": True}}, {"t": "Variant", "v": {"t": "String", "v": None}},
-              {"t": "ListOf", "typename": "Int32", "items": []}, {"t": "ByteString", "v": None}, {"t": "ByteString", "v": "AAEC"}]
+              {"t": "ListOf", "typename": "Int32", "items": []}, {"t": "ByteString", "v": None}, {"t": "ByteString", "v": "AAEC"},
+              {"t": "EngineeringUnits", "uri": "", "unit_id": 5, "display": {"text": "m", "locale": "en"}, "description": {"text": "metre", "locale": None}}]
     texts = value_cases(run, corpus)
     if run.full():
         return
